@@ -151,8 +151,10 @@ def run(ctx):
                             why = 'the zone returned is modified after/besides load_time_zone at %s' % pos(ws[0])
                     # result of the call must not steer control flow
                     p = c.get('_p')
-                    while p is not None and p.get('kind') in ('ExprWithCleanups', 'ParenExpr'):
-                        p = p.get('_p')
+                    while p is not None and (p.get('kind') in ('ExprWithCleanups', 'ParenExpr') or (
+                            p.get('kind') in ('CStyleCastExpr', 'CXXStaticCastExpr', 'CXXFunctionalCastExpr') and
+                            (dtype(p) or qtype(p)) == 'void')):
+                        p = p.get('_p')         # (void)f(..) / static_cast<void>(f(..)): the result is discarded
                     if p is not None and p.get('kind') not in ('CompoundStmt',):
                         good = False
                         why = 'the result of load_time_zone is used: the fallback-to-UTC value it stored may be replaced'
@@ -371,6 +373,12 @@ def run(ctx):
         raise AnalysisBroken('C19-path: no prefix list walked by a zone source was found')
     ctx.minimum('C19-path', 2)
     lits = set(y.get('value') for (uu_, ff_) in ctx.scope(f_local) for y in walk(ff_) if y.get('kind') == 'StringLiteral')
+    for (uu_, ff_) in ctx.scope(f_local):
+        for y in walk(ff_):
+            if y.get('kind') == 'DeclRefExpr' and (y.get('referencedDecl') or {}).get('kind') == 'VarDecl':
+                d_ = uu_.by_id.get((y.get('referencedDecl') or {}).get('id'))
+                if d_ is not None and re.search(r'const char', dtype(d_) or qtype(d_) or '') and kids(d_):
+                    lits |= set(z.get('value') for z in walk(kids(d_)[-1]) if z.get('kind') == 'StringLiteral')   # a named constant
     for lit in ('":localtime"', '"localtime"', '"/etc/localtime"'):
         ctx.check(lit in lits, 'C19-env', 'local_time_zone uses %s' % lit, f,
                   'the documented default %s is not used by local_time_zone' % lit, construct='lit:%s' % lit)
